@@ -4,6 +4,7 @@ answers after the synchronisation pause, and the claimant receives the reply wit
 (work towards phases (b)/(c); C02).
 -/
 import ProfiVerif.Lemmas.ColdStartDuo
+import ProfiVerif.Lemmas.AwaitReply
 
 namespace PV
 open StationGap TokenRing
@@ -21,7 +22,7 @@ consumed yet, and was last polled before the end of the request. -/
 structure HQ0 (cfg : Cfg) (G : Nat) (n : Net) (x y : Nat) (stx sty : NetStation) (r : Int) (r0 : TokenRing)
     (hd : List Telegram) (dn rs : List Transmission) (lY : Int) (coll : Nat) (tl : Int) : Prop where
   solo : Solo cfg n x stx (r + (cfg.b66 : Nat))
-  stx_st : stx.s.st = .claimToken (.scanAwait sty.s.p.address)
+  stx_st : AwaitSt stx.s.st sty.s.p.address
   stx_gap : stx.s.gap = .doPoll sty.s.p.address
   logR : LoneLogR cfg stx.s.p.address x n.bus
   rsne : rs.getLast? = some (rqTx x stx.s.p.address sty.s.p.address r)
@@ -37,6 +38,7 @@ structure HQ0 (cfg : Cfg) (G : Nat) (n : Net) (x y : Nat) (stx sty : NetStation)
   pbx : stx.s.pendingBytes = 0
   starts : ∀ t ∈ n.bus.txs, t.start ≤ tl
   seens : n.bus.seen.getD x 0 ≤ tl ∧ n.bus.seen.getD y 0 ≤ tl
+  rts : stx.s.ring.ts = stx.s.p.address
 
 theorem mem_dropLast_cons {α : Type} (a t : α) (l : List α) (h : t ∈ l.dropLast) : t ∈ (a :: l).dropLast := by
   cases l with
@@ -86,7 +88,7 @@ theorem hq0_claimant {cfg : Cfg} {G : Nat} {n : Net} {x y : Nat} {stx sty : NetS
   have hc5 := cfg.ce5 hr
   have hs := h.solo
   have hearly := h.early
-  have hno : stx.s.st ≠ .offline ∧ stx.s.st ≠ .passiveIdle := by rw [h.stx_st]; simp
+  have hno : stx.s.st ≠ .offline ∧ stx.s.st ≠ .passiveIdle := h.stx_st.awake
   have hup : upSt stx { s := stx.s, apps := stx.apps, rx := [] } = stx := by unfold upSt; rw [← hs.rx]
   have hxy : x ≠ y := Ne.symm h.yx
   -- the poll
@@ -95,11 +97,8 @@ theorem hq0_claimant {cfg : Cfg} {G : Nat} {n : Net} {x y : Nat} {stx sty : NetS
     by_cases hle : now ≤ r + (cfg.b66 : Nat)
     · exact solo_ongoing hs hr now hown hle hno.1 hno.2
     · have hdw : dispatch { s := stx.s, apps := stx.apps, rx := [] } now = .ok { s := stx.s, apps := stx.apps, rx := [] } := by
-        unfold dispatch
-        simp only [h.stx_st]
-        rw [claimAwait_exact _ now (r + (cfg.b66 : Nat)) 1 sty.s.p.address h.stx_st rfl hs.stamp h.stx_gap
-          (hs.inv.await2 _ h.stx_st).2]
-        rw [if_neg (by rw [hs.slot]; omega)]
+        exact await_dispatch_partial _ now (r + (cfg.b66 : Nat)) sty.s.p.address [] false h.stx_st hs.stamp h.stx_gap
+          (AwaitSt.gapne hs.inv h.stx_st).2 receiveTelegram_nil (by rw [hs.slot]; omega)
       obtain ⟨n', hp, hS, hseen⟩ := solo_step hs hr now hown (by omega) _ hno.1 hno.2 hdw (r + (cfg.b66 : Nat)) hs.son rfl rfl
         hs.stamp (Int.le_refl _) (fun b hb => by cases hb)
       rw [hup] at hS
@@ -112,7 +111,7 @@ theorem hq0_claimant {cfg : Cfg} {G : Nat} {n : Net} {x y : Nat} {stx sty : NetS
   cases hst0
   rw [hup] at hset
   have hsy : n'.bus.seen.getD y 0 = n.bus.seen.getD y 0 := by rw [hbus]; exact seen_set_other n.bus x y now hxy
-  refine ⟨n', _, hp, rfl, ⟨hS, h.stx_st, h.stx_gap, ?_, h.rsne, h.others, ?_, h.yx, ?_, ?_, ?_, ?_, ?_, ?_, ?_, ?_⟩⟩
+  refine ⟨n', _, hp, rfl, ⟨hS, h.stx_st, h.stx_gap, ?_, h.rsne, h.others, ?_, h.yx, ?_, ?_, ?_, ?_, ?_, ?_, ?_, ?_, h.rts⟩⟩
   · rw [hbus]
     exact ⟨h.logR.rate, h.logR.corrupt, h.logR.chained, h.logR.live, h.logR.own, h.logR.kinds⟩
   · rw [hset, List.getElem?_set_ne hxy]; exact h.gy
@@ -131,7 +130,7 @@ theorem hq0_claimant {cfg : Cfg} {G : Nat} {n : Net} {x y : Nat} {stx sty : NetS
 answer after the pause; the claimant still awaits the reply. -/
 structure HQ1 (cfg : Cfg) (n : Net) (x y : Nat) (stx sty : NetStation) (r h1 : Int) (coll : Nat) (tl : Int) : Prop where
   solo : Solo cfg n x stx (r + (cfg.b66 : Nat))
-  stx_st : stx.s.st = .claimToken (.scanAwait sty.s.p.address)
+  stx_st : AwaitSt stx.s.st sty.s.p.address
   stx_gap : stx.s.gap = .doPoll sty.s.p.address
   soloY : Solo cfg n y sty h1
   sty_st : sty.s.st = .listenToken (some stx.s.p.address) coll
@@ -143,6 +142,7 @@ structure HQ1 (cfg : Cfg) (n : Net) (x y : Nat) (stx sty : NetStation) (r h1 : I
   pbx : stx.s.pendingBytes = 0
   starts : ∀ t ∈ n.bus.txs, t.start ≤ tl
   seens : n.bus.seen.getD x 0 ≤ tl ∧ n.bus.seen.getD y 0 ≤ tl
+  rts : stx.s.ring.ts = stx.s.p.address
 
 /-- **Phase Q0, the listener is polled**: it consumes what has arrived; if the request has arrived completely it
 is registered (phase Q1), otherwise phase Q0 goes on. -/
@@ -220,7 +220,7 @@ theorem hq0_listener {cfg : Cfg} {G : Nat} {n : Net} {x y : Nat} {stx sty : NetS
     exact ⟨hsoloX, by rw [haddr]; exact h.stx_st, by rw [haddr]; exact h.stx_gap, hlogR', by rw [haddr]; exact hlast,
       by rw [haddr]; exact hoth, List.getElem?_set_self h.yl, h.yx, by simp only [List.length_set]; exact h.ys,
       by simp only [List.length_set]; exact h.yl, hX, hearly', by show c.s.p.rate = _ ∧ c.s.p.slotBits = _; rw [hp]; exact h.py,
-      h.pbx, fun t ht => Int.le_trans (h.starts t ht) htl, hseensNew⟩
+      h.pbx, fun t ht => Int.le_trans (h.starts t ht) htl, hseensNew, h.rts⟩
   rcases hres with hX | ⟨k, d, hk1, hdm, hfl, hlastd, hX⟩
   · exact .inl ⟨hd, dn, rs, _, stillQ0 hd dn rs _ hX h.rsne h.others hcrs hposrs, rfl⟩
   · by_cases hdr : rs.drop k = []
@@ -250,7 +250,7 @@ theorem hq0_listener {cfg : Cfg} {G : Nat} {n : Net} {x y : Nat} {stx sty : NetS
         have := x8; simpa using this
       refine ⟨⟨hsoloX, by rw [haddr]; exact h.stx_st, by rw [haddr]; exact h.stx_gap, ?_, x15, h.yx, ?_,
         (by rw [seen_set_self _ _ _ h.ys]; omega), ?_, ?_, h.pbx,
-        fun t ht => Int.le_trans (h.starts t ht) htl, hseensNew⟩, by rw [x7, hdm, hrsk]⟩
+        fun t ht => Int.le_trans (h.starts t ht) htl, hseensNew, h.rts⟩, by rw [x7, hdm, hrsk]⟩
       · refine ⟨hs.rate, hs.drops, hs.corrupt, hs.chained, hs.live, hs.pos, ?_, ?_, by simp only [List.length_set]; exact h.yl,
           by simp only [List.length_set]; exact h.ys, List.getElem?_set_self h.yl, x1, x2, x3, x4, ?_, x13,
           by show c.s.p.rate = _; rw [hp]; exact h.py.1, by show c.s.p.slotBits = _; rw [hp]; exact h.py.2⟩
@@ -338,7 +338,7 @@ theorem hq1_claimant {cfg : Cfg} {n : Net} {x y : Nat} {stx sty : NetStation} {r
   have hs := h.solo
   have hreg := h.reg
   have hyw := h.ywait
-  have hno : stx.s.st ≠ .offline ∧ stx.s.st ≠ .passiveIdle := by rw [h.stx_st]; simp
+  have hno : stx.s.st ≠ .offline ∧ stx.s.st ≠ .passiveIdle := h.stx_st.awake
   have hup : upSt stx { s := stx.s, apps := stx.apps, rx := [] } = stx := by unfold upSt; rw [← hs.rx]
   have hxy : x ≠ y := Ne.symm h.yx
   have hpoll : ∃ n', n.poll x now = (n', [], some (.ok { s := stx.s, apps := stx.apps, rx := [] })) ∧
@@ -346,11 +346,8 @@ theorem hq1_claimant {cfg : Cfg} {n : Net} {x y : Nat} {stx sty : NetStation} {r
     by_cases hle : now ≤ r + (cfg.b66 : Nat)
     · exact solo_ongoing hs hr now hown hle hno.1 hno.2
     · have hdw : dispatch { s := stx.s, apps := stx.apps, rx := [] } now = .ok { s := stx.s, apps := stx.apps, rx := [] } := by
-        unfold dispatch
-        simp only [h.stx_st]
-        rw [claimAwait_exact _ now (r + (cfg.b66 : Nat)) 1 sty.s.p.address h.stx_st rfl hs.stamp h.stx_gap
-          (hs.inv.await2 _ h.stx_st).2]
-        rw [if_neg (by rw [hs.slot]; omega)]
+        exact await_dispatch_partial _ now (r + (cfg.b66 : Nat)) sty.s.p.address [] false h.stx_st hs.stamp h.stx_gap
+          (AwaitSt.gapne hs.inv h.stx_st).2 receiveTelegram_nil (by rw [hs.slot]; omega)
       obtain ⟨n', hp, hS, hseen⟩ := solo_step hs hr now hown (by omega) _ hno.1 hno.2 hdw (r + (cfg.b66 : Nat)) hs.son rfl rfl
         hs.stamp (Int.le_refl _) (fun b hb => by cases hb)
       rw [hup] at hS
@@ -364,7 +361,7 @@ theorem hq1_claimant {cfg : Cfg} {n : Net} {x y : Nat} {stx sty : NetStation} {r
   rw [hup] at hset
   have hsy : n'.bus.seen.getD y 0 = n.bus.seen.getD y 0 := by rw [hbus]; exact seen_set_other n.bus x y now hxy
   have hsY := h.soloY
-  refine ⟨n', _, hp, rfl, ⟨hS, h.stx_st, h.stx_gap, ?_, h.sty_st, h.yx, h.reg, by rw [hsy]; exact hyw, h.tto, ?_, h.pbx, ?_, ?_⟩⟩
+  refine ⟨n', _, hp, rfl, ⟨hS, h.stx_st, h.stx_gap, ?_, h.sty_st, h.yx, h.reg, by rw [hsy]; exact hyw, h.tto, ?_, h.pbx, ?_, ?_, h.rts⟩⟩
   · exact hsY.otherPoll x now stx hxy hbus hset
   · rw [hbus]; exact h.allx
   · rw [hbus]; exact fun t ht => Int.le_trans (h.starts t ht) htl
@@ -378,16 +375,15 @@ incomplete, and the next character arrives before its slot time runs out. -/
 structure HQ2 (cfg : Cfg) (n : Net) (x y : Nat) (stx sty : NetStation) (r q : Int) (state : ResponseState) (lX : Int)
     (coll : Nat) (tl : Int) : Prop where
   soloY : Solo cfg n y sty (q + (cfg.b66 : Nat))
-  sty_st : sty.s.st = .listenToken none coll
+  sty_st : sty.s.st = .listenToken none coll ∨ sty.s.st = .activeIdle none none 0
   qtl : q ≤ tl
   tto : cfg.slot + 3 * cfg.P + cfg.ce 0 + 2 ≤ sty.s.p.tokenLostTimeout
-  nadm : ¬ Admits state .ok
   gx : n.stations[x]? = some stx
   xl : x < n.stations.length
   xs : x < n.bus.seen.length
   xon : stx.online = true ∧ stx.dead = false ∧ Inv stx.s stx.apps ∧ stx.s.online = true ∧
     stx.s.p.rate = cfg.rate ∧ stx.s.p.slotBits = cfg.slotBits
-  stx_st : stx.s.st = .claimToken (.scanAwait sty.s.p.address)
+  stx_st : AwaitSt stx.s.st sty.s.p.address
   stx_gap : stx.s.gap = .doPoll sty.s.p.address
   yx : y ≠ x
   split : ∃ dnx, n.bus.txs = dnx ++ [rpTx y stx.s.p.address sty.s.p.address state q] ∧
@@ -404,6 +400,7 @@ structure HQ2 (cfg : Cfg) (n : Net) (x y : Nat) (stx sty : NetStation) (r q : In
     lX + (cfg.slot : Nat)
   starts : ∀ t ∈ n.bus.txs, t.start ≤ tl
   seens : n.bus.seen.getD x 0 ≤ tl ∧ n.bus.seen.getD y 0 ≤ tl
+  rts : stx.s.ring.ts = stx.s.p.address
 
 theorem tokenLost_false (s : Station) (now l : Int) (hl : s.lastBusActivity = some l) (h1 : l ≤ now)
     (h2 : now < l + (s.p.tokenLostTimeout : Nat)) : ¬ TokenLost s now := by
@@ -417,7 +414,7 @@ poll after it, it sends the status reply (phase Q2). -/
 theorem hq1_listener {cfg : Cfg} {n : Net} {x y : Nat} {stx sty : NetStation} {r h1 : Int} {coll : Nat} {tl : Int}
     (h : HQ1 cfg n x y stx sty r h1 coll tl) (hok : cfg.Ok) (now : Int) (htl : tl ≤ now)
     (hown : n.bus.seen.getD y 0 < now) (hgy : now ≤ n.bus.seen.getD y 0 + (cfg.P : Nat))
-    (hnr : sty.s.ring.readyForRing = false) :
+    :
     ∃ n' c, n.poll y now = (n', [], some (.ok c)) ∧
       ((c.tx = none ∧ upSt sty c = sty ∧ HQ1 cfg n' x y stx (upSt sty c) r h1 coll now) ∨
        (c.tx = some (statusResponseBytes stx.s.p.address sty.s.p.address (listenReport sty.s stx.s.p.address)) ∧
@@ -462,7 +459,7 @@ theorem hq1_listener {cfg : Cfg} {n : Net} {x y : Nat} {stx sty : NetStation} {r
     exact ⟨hs.otherPoll y now sty h.yx hbus hset, h.stx_st, h.stx_gap, hS, h.sty_st, h.yx, h.reg,
       by rw [hseen]; omega, h.tto, by rw [hbus]; exact h.allx, h.pbx,
       by rw [hbus]; exact fun t ht => Int.le_trans (h.starts t ht) htl,
-      by rw [hseen, hsxx]; exact ⟨Int.le_trans h.seens.1 htl, Int.le_refl _⟩⟩
+      by rw [hseen, hsxx]; exact ⟨Int.le_trans h.seens.1 htl, Int.le_refl _⟩, h.rts⟩
   · -- the reply
     have hdr : dispatch { s := sty.s, apps := sty.apps, rx := [] } now = .ok
         { s := { (markTx (StationGap.stamped sty.s now) now 6) with
@@ -482,8 +479,12 @@ theorem hq1_listener {cfg : Cfg} {n : Net} {x y : Nat} {stx sty : NetStation} {r
     obtain ⟨cR, hdr', k1, k2, k3, k4, k5, k6⟩ : ∃ cR : Ctx, dispatch { s := sty.s, apps := sty.apps, rx := [] } now = .ok cR ∧
         cR.s.online = true ∧ cR.s.p = sty.s.p ∧ cR.rx = [] ∧ cR.s.lastBusActivity = some (now + (cfg.b66 : Nat)) ∧
         cR.tx = some (statusResponseBytes stx.s.p.address sty.s.p.address (listenReport sty.s stx.s.p.address)) ∧
-        cR.s.st = .listenToken none coll :=
-      ⟨_, hdr, hsY.son, rfl, rfl, hst', rfl, by show (if sty.s.ring.readyForRing = true then _ else _) = _; rw [hnr]; rfl⟩
+        (cR.s.st = .listenToken none coll ∨ cR.s.st = .activeIdle none none 0) :=
+      ⟨_, hdr, hsY.son, rfl, rfl, hst', rfl, by
+        show (if sty.s.ring.readyForRing = true then _ else _) = _ ∨ (if sty.s.ring.readyForRing = true then _ else _) = _
+        cases sty.s.ring.readyForRing
+        · exact .inl rfl
+        · exact .inr rfl⟩
     obtain ⟨n', hp, hS, hseen⟩ := solo_step hsY hr now hown hlt cR hno.1 hno.2 hdr' (now + (cfg.b66 : Nat)) k1 k2 k3 k4
       (by omega) (fun b hb => by
         rw [k5] at hb
@@ -510,15 +511,11 @@ theorem hq1_listener {cfg : Cfg} {n : Net} {x y : Nat} {stx sty : NetStation} {r
       simp only
       have := h.seens.1
       omega
-    have hnadm : ¬ Admits (listenReport sty.s stx.s.p.address) .ok := by
-      unfold listenReport Admits
-      rw [hnr]
-      simp
-    refine ⟨hS, k6, Int.le_refl _, by show _ ≤ cR.s.p.tokenLostTimeout; rw [k2]; exact htto, hnadm,
+    refine ⟨hS, k6, Int.le_refl _, by show _ ≤ cR.s.p.tokenLostTimeout; rw [k2]; exact htto,
       by rw [hset, List.getElem?_set_ne h.yx]; exact hs.gx, by rw [hset, List.length_set]; exact hs.xl,
       by rw [hbus, e4]; simp only [List.length_set]; exact hs.xs,
       ⟨hs.online, hs.alive, hs.inv, hs.son, hs.prate, hs.pslot⟩, by rw [haddrY]; exact h.stx_st, by rw [haddrY]; exact h.stx_gap,
-      h.yx, ?_, ?_, ?_, ?_, hs.stamp, Int.le_refl _, by omega, by omega, .inl rfl, ?_, ?_, ?_⟩
+      h.yx, ?_, ?_, ?_, ?_, hs.stamp, Int.le_refl _, by omega, by omega, .inl rfl, ?_, ?_, ?_, h.rts⟩
     · rw [haddrY]
       refine ⟨old', by rw [hbus, e1]; rfl, ?_⟩
       intro o ho
@@ -540,32 +537,6 @@ theorem hq1_listener {cfg : Cfg} {n : Net} {x y : Nat} {stx sty : NetStation} {r
     · rw [hseen, hsxx]; exact ⟨Int.le_trans h.seens.1 htl, Int.le_refl _⟩
 
 /-! ### The claimant while the reply arrives -/
-
-/-- Waiting for the reply with an incomplete telegram in the buffer, slot time not run out. -/
-theorem claimAwait_partial (c : Ctx) (now l : Int) (fuel a : Nat) (rx' : Bytes) (ret : Bool)
-    (hst : c.s.st = .claimToken (.scanAwait a)) (hl : c.s.lastBusActivity = some l) (hg : c.s.gap = .doPoll a)
-    (hne : a ≠ c.s.p.address) (hrx : receiveTelegram c.rx = .done rx' [] ret) (hw : now ≤ l + (c.s.p.slotTime : Nat)) :
-    doClaimToken c now (fuel + 1) = .ok { c with rx := rx' } := by
-  have hag := StationGap.awaitGap_silent c now a rx' ret hne hg hrx
-  rw [stamped_of_some c.s now l hl, checkSlot_some _ _ _ hl] at hag
-  have hc : ({ c with rx := rx', s := c.s } : Ctx) = { c with rx := rx' } := rfl
-  rw [hc] at hag
-  conv => lhs; unfold doClaimToken
-  simp only [hst, hag]
-  have hx : ¬ now > l + (c.s.p.slotTime : Nat) := by omega
-  simp only [hx, decide_false, if_false, Bool.false_eq_true]
-
-/-- The reply of the polled station arrives and does not admit it (not ready): the scan goes on. -/
-theorem claimAwait_reply (c : Ctx) (now : Int) (fuel a : Nat) (rx' : Bytes) (t : Telegram) (fl ret : Bool)
-    (rest : List (Telegram × Bool)) (state : ResponseState) (status : ResponseStatus)
-    (hst : c.s.st = .claimToken (.scanAwait a)) (hg : c.s.gap = .doPoll a) (hne : a ≠ c.s.p.address)
-    (hrx : receiveTelegram c.rx = .done rx' ((t, fl) :: rest) ret)
-    (hr : replyOf c.s.p.address a t = some (state, status)) (hna : ¬ Admits state status) :
-    doClaimToken c now (fuel + 1) =
-      .ok { c with rx := rx', s := { (markRx c.s now) with st := .claimToken .scan } } := by
-  have hag := awaitGap_other c now a rx' t fl ret rest state status hne hg hrx hr hna
-  conv => lhs; unfold doClaimToken
-  simp only [hst, hag, upd]
 
 /-- The status reply as a telegram. -/
 def rpTel (aL aH : Nat) (state : ResponseState) : Telegram :=
@@ -616,7 +587,11 @@ theorem hq2_listener {cfg : Cfg} {n : Net} {x y : Nat} {stx sty : NetStation} {r
       have := (cvis_spec cfg (rpTx y stx.s.p.address sty.s.p.address state q) (n.bus.seen.getD x 0) 5
         (by rw [rpTx_len]; omega)).2 h'
       omega
-  obtain ⟨n', c, hp, htx, hS, hseen⟩ := lone_listen_wait hsY hok coll h.sty_st now hown (by omega)
+  obtain ⟨n', c, hp, htx, hS, hseen⟩ : ∃ n' c, n.poll y now = (n', [], some (.ok c)) ∧ c.tx = none ∧
+      Solo cfg n' y sty (q + (cfg.b66 : Nat)) ∧ n'.bus.seen.getD y 0 = now := by
+    rcases h.sty_st with e | e
+    · exact lone_listen_wait hsY hok coll e now hown (by omega)
+    · exact lone_idle_wait hsY hok none 0 e now hown (by omega)
   obtain ⟨hbus, st0, hst0, hset, -⟩ := Net.poll_bus n y now n' [] c hp
   rw [htx, hsY.deliver hr now (Int.le_of_lt hown)] at hbus
   simp only at hbus
@@ -624,29 +599,30 @@ theorem hq2_listener {cfg : Cfg} {n : Net} {x y : Nat} {stx sty : NetStation} {r
   cases hst0
   have hxy : x ≠ y := Ne.symm h.yx
   have hsxx : n'.bus.seen.getD x 0 = n.bus.seen.getD x 0 := by rw [hbus]; exact seen_set_other n.bus y x now h.yx
-  refine ⟨n', c, hp, htx, hS, h.sty_st, Int.le_trans h.qtl htl, h.tto, h.nadm,
+  refine ⟨n', c, hp, htx, hS, h.sty_st, Int.le_trans h.qtl htl, h.tto,
     by rw [hset, List.getElem?_set_ne h.yx]; exact h.gx, by rw [hset, List.length_set]; exact h.xl,
     by rw [hbus]; simp only [List.length_set]; exact h.xs, h.xon, h.stx_st, h.stx_gap, h.yx,
     by rw [hbus]; exact h.split, by rw [hsxx]; exact h.rxX, by rw [hsxx]; exact h.pendX, by rw [hsxx]; exact h.headX,
     h.stampX, h.lXge, h.qlate, h.qearly, by rw [hsxx]; exact h.pbok, by rw [hsxx]; exact h.slotok,
     by rw [hbus]; exact fun t ht => Int.le_trans (h.starts t ht) htl,
-    by rw [hseen, hsxx]; exact ⟨Int.le_trans h.seens.1 htl, Int.le_refl _⟩⟩
+    by rw [hseen, hsxx]; exact ⟨Int.le_trans h.seens.1 htl, Int.le_refl _⟩, h.rts⟩
 
 /-- **Reply received**: the claimant `x` has consumed the (non-admitting) reply and goes on with its GAP scan; the
 listener `y` listens again; both are up to date with the log, whose last entry is the reply. -/
-structure HQ3 (cfg : Cfg) (n : Net) (x y : Nat) (stx sty : NetStation) (q lx : Int) (coll : Nat) : Prop where
+structure HQ3 (cfg : Cfg) (n : Net) (x y : Nat) (stx sty : NetStation) (q lx : Int) (coll : Nat) (state : ResponseState) : Prop where
   soloX : Solo cfg n x stx lx
   soloY : Solo cfg n y sty (q + (cfg.b66 : Nat))
-  stx_st : stx.s.st = .claimToken .scan
+  stx_st : stx.s.st = .claimToken .scan ∨ stx.s.st = .passToken false .first
   stx_gap : stx.s.gap = .doPoll sty.s.p.address
-  sty_st : sty.s.st = .listenToken none coll
+  sty_st : sty.s.st = .listenToken none coll ∨ sty.s.st = .activeIdle none none 0
   yx : y ≠ x
-  last : ∃ dnx state, n.bus.txs = dnx ++ [rpTx y stx.s.p.address sty.s.p.address state q] ∧
-    (∀ o ∈ dnx, o.sender = x) ∧ ¬ Admits state .ok
+  last : ∃ dnx, n.bus.txs = dnx ++ [rpTx y stx.s.p.address sty.s.p.address state q] ∧
+    (∀ o ∈ dnx, o.sender = x) ∧
+    (Admits state .ok → stx.s.ring.ns = sty.s.p.address ∧ stx.s.ring.isActive sty.s.p.address = true)
 
 /-- The claimant's context after consuming a non-admitting reply. -/
-def replyCtx (s : Station) (apps : Apps) (now : Int) : Ctx :=
-  { s := { (markRx s now) with st := .claimToken .scan }, apps := apps, rx := [] }
+def replyCtxG (s : Station) (apps : Apps) (now : Int) (rg : TokenRing) : Ctx :=
+  { s := { (markRx s now) with ring := rg, st := afterAwait s.st }, apps := apps, rx := [] }
 
 theorem markRx_stamp (s : Station) (now l : Int) (hl : s.lastBusActivity = some l) (hle : l ≤ now) :
     (markRx s now).lastBusActivity = some now := by
@@ -661,7 +637,7 @@ theorem hq2_claimant {cfg : Cfg} {n : Net} {x y : Nat} {stx sty : NetStation} {r
     (hown : n.bus.seen.getD x 0 < now) :
     ∃ n' inc c, n.poll x now = (n', inc, some (.ok c)) ∧ c.tx = none ∧ c.s.p = stx.s.p ∧
       ((∃ lX', HQ2 cfg n' x y (upSt stx c) sty r q state lX' coll now) ∨
-       (q + ((cfg.ce 5 : Nat) : Int) ≤ now ∧ HQ3 cfg n' x y (upSt stx c) sty q now coll)) := by
+       (q + ((cfg.ce 5 : Nat) : Int) ≤ now ∧ HQ3 cfg n' x y (upSt stx c) sty q now coll state)) := by
   have hr := hok.rate
   have hmar := hok.margin
   have hc5 := cfg.ce5 hr
@@ -674,7 +650,7 @@ theorem hq2_claimant {cfg : Cfg} {n : Net} {x y : Nat} {stx sty : NetStation} {r
   have hxy : x ≠ y := Ne.symm h.yx
   have haL : stx.s.p.address < 126 := by have := hinv.addr; have := hinv.hsa; omega
   have haH : sty.s.p.address < 126 := by have := hinv.gap _ h.stx_gap; have := hinv.hsa; omega
-  have hneA : sty.s.p.address ≠ stx.s.p.address := (hinv.await2 _ h.stx_st).2
+  have hneA : sty.s.p.address ≠ stx.s.p.address := (AwaitSt.gapne hinv h.stx_st).2
   have hslotT : stx.s.p.slotTime = cfg.slot := by
     unfold Params.slotTime Cfg.slot Params.bits; rw [hprate, hpslot]
   obtain ⟨rp, hrp⟩ : ∃ rp, rp = rpTx y stx.s.p.address sty.s.p.address state q := ⟨_, rfl⟩
@@ -729,7 +705,7 @@ theorem hq2_claimant {cfg : Cfg} {n : Net} {x y : Nat} {stx sty : NetStation} {r
     simp only [List.map_cons, List.map_nil, List.flatten_cons, List.flatten_nil, List.append_nil]
   have hlate : ∀ l0, stx.s.lastBusActivity = some l0 → l0 < now := by
     intro l0 hl0; rw [h.stampX] at hl0; cases hl0; rcases h.pbok with e | e <;> omega
-  have hno : stx.s.st ≠ .offline ∧ stx.s.st ≠ .passiveIdle := by rw [h.stx_st]; simp
+  have hno : stx.s.st ≠ .offline ∧ stx.s.st ≠ .passiveIdle := h.stx_st.awake
   obtain ⟨f1, f2, f3, f4, f5, -⟩ := checkBA_fields stx.s now (arrived cfg [rp] now).length
   have hpd := poll_dispatch stx.s stx.apps now (arrived cfg [rp] now) hson hno.1 hno.2 hlate
   obtain ⟨l1, hl1, hle1, hcase⟩ := checkBA_stamp stx.s now (arrived cfg [rp] now).length hlate (.inr ⟨lX, h.stampX⟩)
@@ -775,13 +751,11 @@ theorem hq2_claimant {cfg : Cfg} {n : Net} {x y : Nat} {stx sty : NetStation} {r
           omega
         omega
     have hd : dispatch { s := checkBusActivity stx.s now (arrived cfg [rp] now).length, apps := stx.apps, rx := arrived cfg [rp] now } now = .ok { s := checkBusActivity stx.s now (arrived cfg [rp] now).length, apps := stx.apps, rx := arrived cfg [rp] now } := by
-      unfold dispatch
-      simp only [f1, h.stx_st]
-      rw [claimAwait_partial _ now l1 1 sty.s.p.address (arrived cfg [rp] now) false
-        (by show (checkBusActivity stx.s now _).st = _; rw [f1]; exact h.stx_st) hl1
+      exact await_dispatch_partial _ now l1 sty.s.p.address (arrived cfg [rp] now) false
+        (by show AwaitSt (checkBusActivity stx.s now _).st _; rw [f1]; exact h.stx_st) hl1
         (by show (checkBusActivity stx.s now _).gap = _; rw [f5]; exact h.stx_gap)
         (by show _ ≠ (checkBusActivity stx.s now _).p.address; rw [f2]; exact hneA) hrec
-        (by show now ≤ l1 + (((checkBusActivity stx.s now _).p.slotTime : Nat) : Int); rw [f2, hslotT]; exact hw_slot.1)]
+        (by show now ≤ l1 + (((checkBusActivity stx.s now _).p.slotTime : Nat) : Int); rw [f2, hslotT]; exact hw_slot.1)
     rw [hpd, hd] at hc''
     cases hc''
     have hpoll : stx.s.poll stx.apps now (Bus.transmitting { n.bus with seen := n.bus.seen.set x now } x now) (stx.rx ++ inc) =
@@ -798,17 +772,17 @@ theorem hq2_claimant {cfg : Cfg} {n : Net} {x y : Nat} {stx sty : NetStation} {r
     have hlenle : (arrived cfg [rp] (n.bus.seen.getD x 0)).length ≤ (arrived cfg [rp] now).length := by
       rw [← hcat, List.length_append]; omega
     refine ⟨n', inc, _, hpe', rfl, f2, .inl ⟨l1, ?_⟩⟩
-    refine ⟨hsY.otherPoll x now _ hxy hbus hstn, h.sty_st, Int.le_trans h.qtl htl, h.tto, h.nadm,
+    refine ⟨hsY.otherPoll x now _ hxy hbus hstn, h.sty_st, Int.le_trans h.qtl htl, h.tto,
       by rw [hstn]; exact List.getElem?_set_self h.xl, by rw [hstn, List.length_set]; exact h.xl,
       by rw [hbus]; simp only [List.length_set]; exact h.xs,
       ⟨hon, hal, hinv', by show (checkBusActivity stx.s now _).online = true; rw [f4]; exact hson,
         by show (checkBusActivity stx.s now _).p.rate = _; rw [f2]; exact hprate,
         by show (checkBusActivity stx.s now _).p.slotBits = _; rw [f2]; exact hpslot⟩,
-      by show (checkBusActivity stx.s now _).st = _; rw [f1]; exact h.stx_st,
+      by show AwaitSt (checkBusActivity stx.s now _).st _; rw [f1]; exact h.stx_st,
       by show (checkBusActivity stx.s now _).gap = _; rw [f5]; exact h.stx_gap, h.yx,
       ⟨dnx, by rw [haddr, hbus]; exact htxs0, hdnx⟩, ?_, ?_, ?_, hl1, hl1ge, h.qlate, h.qearly, .inr (by rw [hseen]; exact hle1), ?_,
       by rw [hbus]; exact fun t ht => Int.le_trans (h.starts t ht) htl,
-      by rw [hseen, hsy]; exact ⟨Int.le_refl _, Int.le_trans h.seens.2 htl⟩⟩
+      by rw [hseen, hsy]; exact ⟨Int.le_refl _, Int.le_trans h.seens.2 htl⟩, (by show (checkBusActivity stx.s now _).ring.ts = (checkBusActivity stx.s now _).p.address; rw [f3, f2]; exact h.rts)⟩
     · rw [haddr, hseen, ← hrp]; rfl
     · rw [haddr, hseen, ← hrp]
       show (checkBusActivity stx.s now _).pendingBytes ≤ _
@@ -829,25 +803,32 @@ theorem hq2_claimant {cfg : Cfg} {n : Net} {x y : Nat} {stx sty : NetStation} {r
     have hqe : q + ((cfg.ce 5 : Nat) : Int) ≤ now := by
       have := (cvis_spec cfg rp now 5 (by rw [hlen]; omega)).1 (by omega)
       omega
-    have hd : dispatch { s := checkBusActivity stx.s now (arrived cfg [rp] now).length, apps := stx.apps, rx := arrived cfg [rp] now } now = .ok (replyCtx (checkBusActivity stx.s now (arrived cfg [rp] now).length) stx.apps now) := by
-      unfold dispatch
-      simp only [f1, h.stx_st]
-      rw [claimAwait_reply _ now 1 sty.s.p.address [] (rpTel stx.s.p.address sty.s.p.address state) _ true [] state .ok
-        (by show (checkBusActivity stx.s now _).st = _; rw [f1]; exact h.stx_st)
-        (by show (checkBusActivity stx.s now _).gap = _; rw [f5]; exact h.stx_gap)
-        (by show _ ≠ (checkBusActivity stx.s now _).p.address; rw [f2]; exact hneA) hrec
-        (by show replyOf (checkBusActivity stx.s now _).p.address _ _ = _; rw [f2];
-            exact replyOf_rpTel _ _ state (by omega) (by omega)) h.nadm]
-      rfl
-    obtain ⟨cR, hdr, k1, k2, k3, k4, k5, k6, k7⟩ : ∃ cR : Ctx, dispatch { s := checkBusActivity stx.s now (arrived cfg [rp] now).length, apps := stx.apps, rx := arrived cfg [rp] now } now = .ok cR ∧ cR.s.online = true ∧ cR.s.p = stx.s.p ∧ cR.rx = [] ∧
-        cR.s.lastBusActivity = some now ∧ cR.tx = none ∧ cR.s.st = .claimToken .scan ∧ cR.s.gap = stx.s.gap := by
-      refine ⟨_, hd, ?_, ?_, rfl, ?_, rfl, rfl, ?_⟩
+    obtain ⟨rg, hrgA, hd⟩ : ∃ rg : TokenRing, (Admits state .ok → rg.ns = sty.s.p.address ∧ rg.isActive sty.s.p.address = true) ∧
+        dispatch { s := checkBusActivity stx.s now (arrived cfg [rp] now).length, apps := stx.apps, rx := arrived cfg [rp] now } now = .ok (replyCtxG (checkBusActivity stx.s now (arrived cfg [rp] now).length) stx.apps now rg) := by
+      have hstC : AwaitSt (checkBusActivity stx.s now (arrived cfg [rp] now).length).st sty.s.p.address := by rw [f1]; exact h.stx_st
+      have hgC : (checkBusActivity stx.s now (arrived cfg [rp] now).length).gap = .doPoll sty.s.p.address := by rw [f5]; exact h.stx_gap
+      have hneC : sty.s.p.address ≠ (checkBusActivity stx.s now (arrived cfg [rp] now).length).p.address := by rw [f2]; exact hneA
+      have hrC : replyOf (checkBusActivity stx.s now (arrived cfg [rp] now).length).p.address sty.s.p.address
+          (rpTel stx.s.p.address sty.s.p.address state) = some (state, .ok) := by
+        rw [f2]; exact replyOf_rpTel _ _ state (by omega) (by omega)
+      by_cases hadm : Admits state .ok
+      · obtain ⟨rr, h1, h2, h3, h4, h5, h6⟩ := await_dispatch_admit { s := checkBusActivity stx.s now (arrived cfg [rp] now).length, apps := stx.apps, rx := arrived cfg [rp] now } now sty.s.p.address [] (rpTel stx.s.p.address sty.s.p.address state) _ true [] state hstC hgC hneC hrec hrC hadm.2 (by omega)
+          (by show (checkBusActivity stx.s now _).ring.ts = (checkBusActivity stx.s now _).p.address; rw [f3, f2]; exact h.rts)
+          (by show (checkBusActivity stx.s now _).p.address < 128; rw [f2]; omega)
+        exact ⟨rr, fun _ => ⟨h2, h5⟩, h6⟩
+      · refine ⟨(checkBusActivity stx.s now (arrived cfg [rp] now).length).ring, fun hh => absurd hh hadm, ?_⟩
+        exact await_dispatch_reply { s := checkBusActivity stx.s now (arrived cfg [rp] now).length, apps := stx.apps, rx := arrived cfg [rp] now } now sty.s.p.address [] (rpTel stx.s.p.address sty.s.p.address state) _ true [] state .ok hstC hgC hneC hrec hrC hadm
+    obtain ⟨cR, hdr, k1, k2, k3, k4, k5, k6, k7, k8⟩ : ∃ cR : Ctx, dispatch { s := checkBusActivity stx.s now (arrived cfg [rp] now).length, apps := stx.apps, rx := arrived cfg [rp] now } now = .ok cR ∧ cR.s.online = true ∧ cR.s.p = stx.s.p ∧ cR.rx = [] ∧
+        cR.s.lastBusActivity = some now ∧ cR.tx = none ∧ cR.s.st = afterAwait stx.s.st ∧ cR.s.gap = stx.s.gap ∧ cR.s.ring = rg := by
+      refine ⟨_, hd, ?_, ?_, rfl, ?_, rfl, ?_, ?_, rfl⟩
       · show (markRx (checkBusActivity stx.s now _) now).online = true
         unfold markRx markBusActivity; exact f4.trans hson
       · show (markRx (checkBusActivity stx.s now _) now).p = _
         unfold markRx markBusActivity; exact f2
       · show (markRx (checkBusActivity stx.s now _) now).lastBusActivity = _
         exact markRx_stamp _ now l1 hl1 hle1
+      · show afterAwait (checkBusActivity stx.s now _).st = _
+        rw [f1]
       · show (markRx (checkBusActivity stx.s now _) now).gap = _
         unfold markRx markBusActivity; exact f5
     rw [hpd, hdr] at hc''
@@ -863,8 +844,14 @@ theorem hq2_claimant {cfg : Cfg} {n : Net} {x y : Nat} {stx sty : NetStation} {r
     have hseen : n'.bus.seen.getD x 0 = now := by rw [hbus]; exact seen_set_self _ _ _ h.xs
     have haddr : (upSt stx cR).s.p.address = stx.s.p.address := by show cR.s.p.address = _; rw [k2]
     refine ⟨n', inc, cR, hpe', k5, k2, .inr ⟨hqe, ?_⟩⟩
-    refine ⟨?_, hsY.otherPoll x now _ hxy hbus hstn, k6, by show cR.s.gap = _; rw [k7]; exact h.stx_gap, h.sty_st, h.yx,
-      ⟨dnx, state, by rw [haddr, hbus]; exact htxs0, fun o ho => (hdnx o ho).1, h.nadm⟩⟩
+    have hst3 : cR.s.st = .claimToken .scan ∨ cR.s.st = .passToken false .first := by
+      rw [k6]
+      rcases h.stx_st with e | e <;> rw [e]
+      · exact .inl rfl
+      · exact .inr rfl
+    refine ⟨?_, hsY.otherPoll x now _ hxy hbus hstn, hst3, by show cR.s.gap = _; rw [k7]; exact h.stx_gap, h.sty_st, h.yx,
+      ⟨dnx, by rw [haddr, hbus]; exact htxs0, fun o ho => (hdnx o ho).1,
+        fun ha => by show cR.s.ring.ns = _ ∧ cR.s.ring.isActive _ = true; rw [k8]; exact hrgA ha⟩⟩
     refine ⟨by rw [hbus]; exact hsY.rate, by rw [hbus]; exact hsY.drops, by rw [hbus]; exact hsY.corrupt,
       by rw [hbus]; exact hsY.chained, by rw [hbus]; exact hsY.live, by rw [hbus]; exact hsY.pos, ?_, ?_,
       by rw [hstn, List.length_set]; exact h.xl, by rw [hbus]; simp only [List.length_set]; exact h.xs,
@@ -902,39 +889,40 @@ theorem listenReport_notReady (s : Station) (src : Nat) (h : s.ring.readyForRing
 /-- The three phases of an answered GAP request; `T`: everything the listener will have heard when it registers the
 request. -/
 def HQ (cfg : Cfg) (G : Nat) (n : Net) (x y : Nat) (stx sty : NetStation) (r : Int) (r0 : TokenRing) (T : List Telegram)
-    (coll : Nat) (tl : Int) : Prop :=
+    (state : ResponseState) (coll : Nat) (tl : Int) : Prop :=
   (∃ hd dn rs lY, HQ0 cfg G n x y stx sty r r0 hd dn rs lY coll tl ∧ hd ++ rs.map telOf = T) ∨
-  (∃ h1, HQ1 cfg n x y stx sty r h1 coll tl ∧ sty.s.ring.readyForRing = false) ∨
-  (∃ q state lX, HQ2 cfg n x y stx sty r q state lX coll tl)
+  (∃ h1, HQ1 cfg n x y stx sty r h1 coll tl ∧ listenReport sty.s stx.s.p.address = state) ∨
+  (∃ q lX, HQ2 cfg n x y stx sty r q state lX coll tl)
 
 theorem HQ.info {cfg : Cfg} {G : Nat} {n : Net} {x y : Nat} {stx sty : NetStation} {r : Int} {r0 : TokenRing}
-    {T : List Telegram} {coll : Nat} {tl : Int} (h : HQ cfg G n x y stx sty r r0 T coll tl) :
+    {T : List Telegram} {state : ResponseState} {coll : Nat} {tl : Int} (h : HQ cfg G n x y stx sty r r0 T state coll tl) :
     n.stations[x]? = some stx ∧ n.stations[y]? = some sty ∧ x < n.stations.length ∧ y < n.stations.length ∧ y ≠ x := by
-  rcases h with ⟨hd, dn, rs, lY, h, -⟩ | ⟨h1, h, -⟩ | ⟨q, state, lX, h⟩
+  rcases h with ⟨hd, dn, rs, lY, h, -⟩ | ⟨h1, h, -⟩ | ⟨q, lX, h⟩
   · exact ⟨h.solo.gx, h.gy, h.solo.xl, h.yl, h.yx⟩
   · exact ⟨h.solo.gx, h.soloY.gx, h.solo.xl, h.soloY.xl, h.yx⟩
   · exact ⟨h.gx, h.soloY.gx, h.xl, h.soloY.xl, h.yx⟩
 
 /-- Run from the GAP request to the reception of the reply: the listener `y` transmits nothing but the reply "not
 ready"; the claimant `x` transmits nothing; `x` has consumed the reply by `B`. -/
-def RplRun (cfg : Cfg) (x y aL aH : Nat) (B : Int) : Net → List (Nat × Int) → Prop
+def RplRun (cfg : Cfg) (x y aL aH : Nat) (state : ResponseState) (B : Int) : Net → List (Nat × Int) → Prop
   | _, [] => True
   | n, (i, now) :: rest =>
     ∃ n' inc c, n.poll i now = (n', inc, some (.ok c)) ∧
-      ((i = y ∧ (c.tx = none ∨ c.tx = some (statusResponseBytes aL aH .masterNotReady)) ∧ RplRun cfg x y aL aH B n' rest) ∨
-       (i = x ∧ c.tx = none ∧ (RplRun cfg x y aL aH B n' rest ∨
-          (now ≤ B ∧ ∃ stx sty q coll, HQ3 cfg n' x y stx sty q now coll ∧ stx.s.p.address = aL ∧ sty.s.p.address = aH))))
+      ((i = y ∧ (c.tx = none ∨ c.tx = some (statusResponseBytes aL aH state)) ∧ RplRun cfg x y aL aH state B n' rest) ∨
+       (i = x ∧ c.tx = none ∧ (RplRun cfg x y aL aH state B n' rest ∨
+          (now ≤ B ∧ ∃ stx sty q coll, HQ3 cfg n' x y stx sty q now coll state ∧ stx.s.p.address = aL ∧ sty.s.p.address = aH))))
 
 /-- **The first answered GAP request**: from the request on the bus, under any schedule that polls every station at
 least every `P`, the listener registers it, waits for the synchronisation pause and sends "not ready"; the claimant
 waits (its slot time never runs out), receives the reply in whatever pieces it arrives, and goes on scanning, at the
 latest `2 · ce 5 + bits 33 + 3 P` after the start of the request. -/
 theorem reply_run {cfg : Cfg} (hok : cfg.Ok) (G : Nat) (hG : cfg.slot + 3 * cfg.P ≤ G) (x y : Nat) (r : Int) (r0 : TokenRing)
-    (T : List Telegram) (aL aH : Nat) (hnr : (hearAll aL T r0).readyForRing = false) :
+    (T : List Telegram) (aL aH : Nat) (state : ResponseState)
+    (hrep : ∀ s : Station, s.ring = hearAll aL T r0 → listenReport s aL = state) :
     ∀ (evs : List (Nat × Int)) (n : Net) (stx sty : NetStation) (coll : Nat) (tl : Int),
-    HQ cfg G n x y stx sty r r0 T coll tl → n.stations.length = 2 → stx.s.p.address = aL → sty.s.p.address = aH →
+    HQ cfg G n x y stx sty r r0 T state coll tl → n.stations.length = 2 → stx.s.p.address = aL → sty.s.p.address = aH →
     SchedN cfg.P n tl evs →
-    RplRun cfg x y aL aH (r + 2 * ((cfg.ce 5 : Nat) : Int) + (cfg.b33 : Nat) + 3 * (cfg.P : Nat)) n evs := by
+    RplRun cfg x y aL aH state (r + 2 * ((cfg.ce 5 : Nat) : Int) + (cfg.b33 : Nat) + 3 * (cfg.P : Nat)) n evs := by
   intro evs
   induction evs with
   | nil => intro _ _ _ _ _ _ _ _ _ _; trivial
@@ -951,7 +939,7 @@ theorem reply_run {cfg : Cfg} (hok : cfg.Ok) (G : Nat) (hG : cfg.slot + 3 * cfg.
       have := Net.poll_len n i now; rw [hp] at this; simp only at this; rw [this]; exact hN
     rcases hixy with rfl | rfl
     · -- the claimant
-      rcases hq with ⟨hd, dn, rs, lY, h, hT⟩ | ⟨h1, h, hnr1⟩ | ⟨q, state, lX, h⟩
+      rcases hq with ⟨hd, dn, rs, lY, h, hT⟩ | ⟨h1, h, hnr1⟩ | ⟨q, lX, h⟩
       · obtain ⟨n', c, hp, htx, h'⟩ := hq0_claimant h hok now htl hown hgy
         have hn' : (n.poll i now).1 = n' := by rw [hp]
         rw [hn'] at hrest
@@ -968,7 +956,7 @@ theorem reply_run {cfg : Cfg} (hok : cfg.Ok) (G : Nat) (hG : cfg.slot + 3 * cfg.
         have haL' : (upSt stx c).s.p.address = aL := by show c.s.p.address = _; rw [hpp]; exact haL
         refine ⟨n', inc, c, hp, .inr ⟨rfl, htx, ?_⟩⟩
         rcases h' with ⟨lX', h'⟩ | ⟨hqe, h3⟩
-        · exact .inl (ih n' (upSt stx c) sty coll now (.inr (.inr ⟨q, state, lX', h'⟩)) (hlenOf _ _ _ hp) haL' haH hrest)
+        · exact .inl (ih n' (upSt stx c) sty coll now (.inr (.inr ⟨q, lX', h'⟩)) (hlenOf _ _ _ hp) haL' haH hrest)
         · refine .inr ⟨?_, upSt stx c, sty, q, coll, h3, haL', haH⟩
           have hc5 := cfg.ce5 hok.rate
           have hhead := h.headX
@@ -982,7 +970,7 @@ theorem reply_run {cfg : Cfg} (hok : cfg.Ok) (G : Nat) (hG : cfg.slot + 3 * cfg.
               omega
           omega
     · -- the listener
-      rcases hq with ⟨hd, dn, rs, lY, h, hT⟩ | ⟨h1, h, hnr1⟩ | ⟨q, state, lX, h⟩
+      rcases hq with ⟨hd, dn, rs, lY, h, hT⟩ | ⟨h1, h, hnr1⟩ | ⟨q, lX, h⟩
       · obtain ⟨n', inc, c, hp, htx, h'⟩ := hq0_listener h hok hG now htl hown hgy
         have hn' : (n.poll i now).1 = n' := by rw [hp]
         rw [hn'] at hrest
@@ -992,8 +980,8 @@ theorem reply_run {cfg : Cfg} (hok : cfg.Ok) (G : Nat) (hG : cfg.slot + 3 * cfg.
         rcases h' with ⟨hd', dn', rs', lY', h', hT'⟩ | ⟨h', hring⟩
         · exact ih n' stx (upSt sty c) coll now (.inl ⟨hd', dn', rs', lY', h', hT'.trans hT⟩) (hlenOf _ _ _ hp) haL haH' hrest
         · refine ih n' stx (upSt sty c) coll now (.inr (.inl ⟨now, h', ?_⟩)) (hlenOf _ _ _ hp) haL haH' hrest
-          rw [hring, hT, haL]; exact hnr
-      · obtain ⟨n', c, hp, h'⟩ := hq1_listener h hok now htl hown hgy hnr1
+          rw [haL]; exact hrep _ (by rw [hring, hT, haL])
+      · obtain ⟨n', c, hp, h'⟩ := hq1_listener h hok now htl hown hgy
         have hn' : (n.poll i now).1 = n' := by rw [hp]
         rw [hn'] at hrest
         have hpp := Net.poll_params n i now n' [] c sty hp hgy0
@@ -1002,12 +990,13 @@ theorem reply_run {cfg : Cfg} (hok : cfg.Ok) (G : Nat) (hG : cfg.slot + 3 * cfg.
         · refine ⟨n', [], c, hp, .inl ⟨rfl, .inl htx, ?_⟩⟩
           exact ih n' stx (upSt sty c) coll now (.inr (.inl ⟨h1, h', by rw [hsame]; exact hnr1⟩)) (hlenOf _ _ _ hp) haL haH' hrest
         · refine ⟨n', [], c, hp, .inl ⟨rfl, .inr ?_, ?_⟩⟩
-          · rw [htx, listenReport_notReady _ _ hnr1, haL, haH]
-          · exact ih n' stx (upSt sty c) coll now (.inr (.inr ⟨now, _, _, h'⟩)) (hlenOf _ _ _ hp) haL haH' hrest
+          · rw [htx, hnr1, haL, haH]
+          · rw [hnr1] at h'
+            exact ih n' stx (upSt sty c) coll now (.inr (.inr ⟨now, _, h'⟩)) (hlenOf _ _ _ hp) haL haH' hrest
       · obtain ⟨n', c, hp, htx, h'⟩ := hq2_listener h hok now htl hown hgx
         have hn' : (n.poll i now).1 = n' := by rw [hp]
         rw [hn'] at hrest
-        exact ⟨n', [], c, hp, .inl ⟨rfl, .inl htx, ih n' stx sty coll now (.inr (.inr ⟨q, state, lX, h'⟩))
+        exact ⟨n', [], c, hp, .inl ⟨rfl, .inl htx, ih n' stx sty coll now (.inr (.inr ⟨q, lX, h'⟩))
           (hlenOf _ _ _ hp) haL haH hrest⟩⟩
 
 end PV
